@@ -86,6 +86,8 @@ var stdDefs = []ContentDef{
 	{ID: "m5", Kind: "image", MT: "oci.image", Cfg: "b1", CfgMT: types.MediaTypeOCI1ImageConfig, Layers: []string{"b2"}, RefAlg: "sha512"},
 	{ID: "ml", Kind: "image", MT: "oci.image", Cfg: "b1", CfgMT: types.MediaTypeOCI1ImageConfig, Layers: []string{"m1"}}, // a layer that is a manifest digest
 	{ID: "mg", Kind: "image", MT: "oci.image", Cfg: "b1", CfgMT: types.MediaTypeOCI1ImageConfig, Layers: []string{"b2"}, Pad: 4096},
+	// an image manifest (config, layers) whose mediaType field claims to be an index: never a well formed manifest
+	{ID: "mi", Kind: "image", MT: "oci.index", Cfg: "b1", CfgMT: types.MediaTypeOCI1ImageConfig, Layers: []string{"b2"}},
 	{ID: "x1", Kind: "index", MT: "oci.index", Children: []string{"m1", "m2"}},
 	{ID: "x2", Kind: "index", MT: "oci.index", Children: []string{"x1"}},
 	{ID: "x3", Kind: "index", MT: "docker.index", Children: []string{"m3"}},
